@@ -17,18 +17,24 @@ struct CoopUF {
     std::vector<std::string> lastPt;
     std::vector<long> steps;
     std::vector<std::function<void()>> body;
-    std::vector<std::unique_ptr<char[]>> stack;
+    std::vector<char*> stack;
+    // stacks are pooled and reused across scheduler instances (an execution costs no allocation)
+    static std::vector<std::unique_ptr<char[]>>& pool() {
+        static std::vector<std::unique_ptr<char[]>> p;
+        return p;
+    }
     int cur = -1;  // -1: controller
     static CoopUF*& active() {
         static CoopUF* a = nullptr;
         return a;
     }
-    explicit CoopUF(int n) : ctx(n), done(n, 0), started(n, 0), lastPt(n, "start"), steps(n, 0), body(n), stack(n) {}
+    explicit CoopUF(int n) : ctx(n), done(n, 0), started(n, 0), lastPt(n, "start"), steps(n, 0), body(n), stack(n, nullptr) {}
     void spawn(int id, std::function<void()> f) {
         body[id] = std::move(f);
-        stack[id].reset(new char[STACK]);
+        while (pool().size() <= (std::size_t)id) pool().emplace_back(new char[STACK]);
+        stack[id] = pool()[id].get();
         getcontext(&ctx[id]);
-        ctx[id].uc_stack.ss_sp = stack[id].get();
+        ctx[id].uc_stack.ss_sp = stack[id];
         ctx[id].uc_stack.ss_size = STACK;
         ctx[id].uc_link = &controller;
         makecontext(&ctx[id], (void (*)())&CoopUF::entry, 1, id);
